@@ -11,7 +11,7 @@
 From Coq Require Import List Bool Arith NArith ZArith Lia.
 From CliUtils Require Import Model.ObjSet Model.ActuationTable Model.PipelineTypes Model.Pipeline
      Proofs.ObjSetProofs Proofs.PipelineBase Proofs.PipelineAuth Proofs.PipelineEvents
-     Corr.CorrLib Corr.CorrPipeline Proofs.PipelineMonBase Proofs.PipelineMonC13 Proofs.PipelineMonC10
+     Corr.CorrLib Corr.CorrPipeline Proofs.PipelineOrphansPlan Proofs.PipelineMonBase Proofs.PipelineMonC13 Proofs.PipelineMonC10
      Proofs.PipelineMonC11b.
 Import ListNotations.
 
@@ -116,20 +116,24 @@ Section Run.
   Lemma run_plan_cases : run_plan sc c0 = None \/ run_plan sc c0 = Some (pl, locals_of sc).
   Proof.
     unfold run_plan. cbv zeta.
-    pose proof (same6_inv_list sc (init_state c0)) as L1. pose proof (inv_list_res sc (init_state c0)) as R1.
-    destruct (inv_list sc (init_state c0)) as [s1 r1]. cbn [fst snd] in *.
+    pose proof (same6_inv_list sc (init_state sc c0)) as L1. pose proof (inv_list_res sc (init_state sc c0)) as R1.
+    pose proof (known_inv_list sc (init_state sc c0)) as KN1.
+    destruct (inv_list sc (init_state sc c0)) as [s1 r1]. cbn [fst snd] in *.
     destruct r1 as [st|]; [|left; reflexivity].
     specialize (R1 st eq_refl). cbn [init_state r_cl] in R1. subst st.
     fold (prev_of c0). fold (locals_of sc). fold (cand_of sc c0).
     pose proof (fetch_all_exact sc (cand_of sc c0) s1) as FE.
-    destruct (fetch_all sc s1 (cand_of sc c0)) as [s2 r2]. cbn [snd] in FE.
+    pose proof (known_fetch_all sc (cand_of sc c0) s1) as KN2.
+    destruct (fetch_all sc s1 (cand_of sc c0)) as [s2 r2]. cbn [fst snd] in FE, KN2.
     destruct r2 as [pobjs|]; [|left; reflexivity]. right.
-    rewrite (FE pobjs eq_refl). destruct L1 as [C1 _]. rewrite C1. cbn [init_state r_cl].
+    destruct L1 as [C1 _]. cbn [init_state r_cl r_known] in C1, KN1.
+    assert (HK1 : r_known s1 = live_crds sc (r_cl s1)) by (rewrite KN1, C1; reflexivity).
+    rewrite (FE pobjs HK1 eq_refl), C1, KN2, KN1.
     rewrite <- plan_of_eq. reflexivity.
   Qed.
 
   Lemma apply_valid_plan : forall i, In i (apply_ids pl) -> ~ In i invd.
-  Proof. exact (bp_apply_valid sc (locals_of sc) (found_in c0 (cand_of sc c0))). Qed.
+  Proof. exact (bp_apply_valid sc (live_crds sc c0) (locals_of sc) (found_in sc c0 (cand_of sc c0))). Qed.
 
   (* ---- conjunct 1: invalid objects are never sent ----------------------------------------- *)
   Lemma c11_never_sent :
@@ -182,7 +186,7 @@ Section Run.
     - apply (K s4); [apply SO|apply start_Is; exact SO|]. eapply s_trans; [apply s_pre_tasks|].
       apply s_run_tasks.
       + exact apply_valid_plan.
-      + exact (tasks_of_ok sc (locals_of sc) (found_in c0 (cand_of sc c0))).
+      + exact (tasks_of_ok sc (live_crds sc c0) (locals_of sc) (found_in sc c0 (cand_of sc c0))).
       + intros pv E i Hi. destruct PV as [PV|PV]; rewrite PV in E; [discriminate|]. injection E as <-. exact Hi.
   Qed.
 
@@ -242,7 +246,7 @@ Section Run.
   Qed.
 
   Lemma invalid_valerrs i : In i invd -> exists e, In e (pl_valerrs pl) /\ In i e.
-  Proof. exact (invalid_named sc (locals_of sc) (found_in c0 (cand_of sc c0)) i). Qed.
+  Proof. exact (invalid_named sc (live_crds sc c0) (locals_of sc) (found_in sc c0 (cand_of sc c0)) i). Qed.
 
   (* the trace of the run state extends the trace after the validation and plan events *)
   Lemma pre_tasks_prefix s4 :
